@@ -14,7 +14,7 @@
 (* own decoder maps every layout back to the same logical samples          *)
 (* (LayoutInvariant); every layout is a replay case for the real reader.   *)
 (***************************************************************************)
-EXTENDS Movie, Reader, Json
+EXTENDS Movie, Reader, Json, SequencesExt
 
 CONSTANTS Base,       \* "plain" | "frag" | "meta"
           MaxOps,     \* number of operations applied (depth)
@@ -89,7 +89,7 @@ ViewOf(f) == [id \in {f.tracks[i].id : i \in 1..Len(f.tracks)} |->
 Decoded(bytes) == DecodeInput([img |-> ImgOf(bytes), has_init |-> FALSE])
 
 Init == /\ ops = <<>> /\ RInit
-        /\ out = [done |-> FALSE, view |-> <<>>, bytes |-> <<>>]
+        /\ out = [done |-> FALSE, view |-> <<>>, bytes |-> <<>>, fields |-> <<>>]
 
 \* apply one more operation
 Apply == /\ ~out.done /\ Len(ops) < MaxOps
@@ -100,7 +100,8 @@ Render == /\ ~out.done
           /\ \E bytes \in {RenderIt(ops)} :
              \E f \in {Decoded(bytes)} :
                /\ Open(f)
-               /\ out' = [done |-> TRUE, bytes |-> bytes, view |-> IF f.ok THEN ViewOf(f) ELSE <<"undecodable", f.why>>]
+               /\ out' = [done |-> TRUE, bytes |-> bytes, view |-> IF f.ok THEN ViewOf(f) ELSE <<"undecodable", f.why>>,
+                              fields |-> SetToSeq(FieldMapOf(bytes))]
           /\ UNCHANGED ops
 Next == Apply \/ Render
 Spec == Init /\ [][Next]_vars
@@ -108,5 +109,5 @@ Spec == Init /\ [][Next]_vars
 \* the reference view: the unmodified layout
 RefView == ViewOf(Decoded(RenderIt(<<>>)))
 LayoutInvariant == out.done => out.view = RefView
-Emit == out.done => PrintT("CASE " \o ToJson([file |-> out.bytes, ops |-> ops, base |-> Base]))
+Emit == out.done => PrintT("CASE " \o ToJson([file |-> out.bytes, ops |-> ops, base |-> Base, fields |-> out.fields]))
 =============================================================================
